@@ -503,7 +503,7 @@ BRIDGE = {
     },
     "Rough.Bridge.ConfigLoaders": {
         "rs_modules": ["EnvConfig", "FileConfig"],
-        "theorems": ["env_config_new_eq", "loadEnv_raw", "file_config_new_eq", "file_config_new_docs", "file_config_unknown_key",
+        "theorems": ["env_config_new_eq", "loadEnv_raw", "file_config_new_eq", "file_config_new_eq_resolved", "file_config_new_docs", "file_config_unknown_key",
                      "file_config_unknown_key_resolved", "file_config_unknown_key_counterexample"],
         "props": ["C16"],
     },
@@ -578,7 +578,7 @@ BRIDGE = {
     "Rough.Props.GenConfig": {
         "rs_modules": ["EnvConfig", "FileConfig", "Config"],
         "namespace": "Rough.Props.GenConfig",
-        "theorems": ["file_getters", "env_getters", "GEN_start_file", "GEN_start_env", "GEN_file_effective_is_written",
+        "theorems": ["file_getters", "env_getters", "GEN_start_file", "GEN_start_file_resolved", "GEN_start_env", "GEN_file_effective_is_written",
                      "GEN_file_out_of_range_refused", "GEN_env_missing_required", "GEN_env_out_of_range_refused"],
         "props": ["C16"],
     },
